@@ -301,7 +301,7 @@ def simp_cst_propagation(e_s, expr):
     # ((A & mask) >> shift) with mask < 2**shift => 0
     if op_name == ">>" and args[1].is_int() and args[0].is_op("&"):
         if (args[0].args[1].is_int() and
-            2 ** int(args[1]) > int(args[0].args[1])):
+            int(args[1]) >= int(args[0].args[1]).bit_length()):
             return ExprInt(0, args[0].size)
 
     # parity(int) => int
